@@ -302,6 +302,16 @@ def handle (j : Json) : Except String Json := do
     match dimacs c ord as sp with
     | .ok t => pure (respond .ok [("text", jstr t)])
     | .error e => pure (respond e [])
+  | "sensitization_transform" =>
+    let c ← circuitOfJson (← j.getObjVal? "c")
+    match Tx.sensitizationTransform c (← (← j.getObjVal? "n").getStr?) (getStrListD j "endpoints") ord (getOrdE j) with
+    | .ok r => pure (respond .ok [("c", circuitToJson r)])
+    | .error e => pure (respond e [])
+  | "sensitivity_transform" =>
+    let c ← circuitOfJson (← j.getObjVal? "c")
+    match Tx.sensitivityTransform c (← (← j.getObjVal? "n").getStr?) ord with
+    | .ok r => pure (respond .ok [("c", circuitToJson r)])
+    | .error e => pure (respond e [])
   | "ord" =>
     pure (respond .ok [("r", jarr jstr (ord (getStrListD j "l")))])
   | _ => throw s!"unknown op {op}"
